@@ -15,7 +15,6 @@ use crate::val;
 use crate::visit::{self, Slices};
 use std::cmp::Reverse;
 use std::collections::{BTreeMap, BinaryHeap};
-use tls_parser::nom::error::ErrorKind;
 use tls_parser::*;
 
 pub const CAP: usize = 16640;
@@ -247,20 +246,28 @@ pub fn generate(rng: &mut Rng, prop: Prop) -> Scenario {
                 // a ChangeCipherSpec or alert record inside the flight
                 seqno = (seqno + 1) & 0xffff_ffff_ffff;
                 if rng.chance(1, 2) {
-                    recs.push(Rec { ctype: 20, ver, epoch, seqno, content: Content::Raw(vec![1]), declen: None });
+                    let ccs = match rng.below(6) {
+                        0 => vec![*rng.pick(&[0u8, 2, 0x14, 0xff])],
+                        1 => vec![1, 1, rng.u8()],
+                        2 => Vec::new(),
+                        _ => vec![1],
+                    };
+                    recs.push(Rec { ctype: 20, ver, epoch, seqno, content: Content::Raw(ccs), declen: None });
                     if f_epoch {
                         epoch = epoch.wrapping_add(1);
                         seqno = 0;
                     }
                 } else {
-                    recs.push(Rec { ctype: 21, ver, epoch, seqno, content: Content::Raw(vec![rng.range(1, 2) as u8, rng.u8()]), declen: None });
+                    let n = *rng.pick(&[2usize, 2, 2, 4, 6, 1, 3, 0]);
+                    recs.push(Rec { ctype: 21, ver, epoch, seqno, content: Content::Raw(rng.bytes(n)), declen: None });
                 }
             }
         }
         if rng.chance(1, 25) {
             // a long run of tiny records (alerts / CCS) in the flight
-            let n = match rng.below(3) {
-                0 => *rng.pick(&[15usize, 16, 17, 31, 32, 33, 63, 64, 65, 127, 128, 129]),
+            let n = match rng.below(8) {
+                0 | 1 => *rng.pick(&[15usize, 16, 17, 31, 32, 33, 63, 64, 65, 127, 128, 129]),
+                2 => rng.urange(1000, 1150),
                 _ => rng.urange(5, 150),
             };
             for _ in 0..n {
@@ -271,8 +278,8 @@ pub fn generate(rng: &mut Rng, prop: Prop) -> Scenario {
                     recs.push(Rec { ctype: 21, ver, epoch, seqno, content: Content::Raw(vec![1, rng.u8()]), declen: None });
                 }
             }
-            if mtu < 4000 && rng.chance(2, 3) {
-                mtu = 4000; // let them share one datagram
+            if mtu < 20000 && rng.chance(2, 3) {
+                mtu = if n > 200 { 20000 } else { 4000 }; // let them share one datagram
             }
         }
         if batch >= 1 && rng.chance(1, 30) {
@@ -875,17 +882,18 @@ pub fn execute(scn: &Scenario, ctx: &mut Ctx) {
                     break;
                 }
                 Frame::TooLarge => {
-                    if !(p.out.is_rejection() && p.out.kind == Some(ErrorKind::TooLarge)) {
-                        ctx.violate(Prop::C10, "dtls/cap", || format!("declared length {} > 16640 answered {} (expected Error(TooLarge))", len, p.out.show()));
+                    if !p.out.is_rejection() {
+                        ctx.violate(Prop::C10, "dtls/cap", || format!("declared length {} > 16640 answered {} (expected a rejection)", len, p.out.show()));
                     }
                     break;
                 }
                 Frame::Partial { missing } => {
                     if !p.out.is_incomplete() {
                         ctx.violate(Prop::C10, "dtls/incomplete-iff", || format!("record truncated by the network ({} of {} bytes) answered {}", sub.len(), 13 + len as usize, p.out.show()));
-                    } else if p.out.needed != Some(Some(missing)) {
-                        ctx.violate(Prop::C10, "dtls/needed", || format!("record truncated: {} bytes missing, parser says {}", missing, p.out.show()));
                     }
+                    // (C10 repeats the cap, exact consumption and Incomplete-iff-truncated of TLS, not the
+                    // exact-Needed sentence of C02)
+                    let _ = missing;
                     break;
                 }
                 Frame::Complete { len: l } => {
@@ -1124,18 +1132,35 @@ fn record_oracle(ctx: &mut Ctx, scn: &Scenario, lr: &LRec, p: &PRec, sub: &[u8])
         }
         return true;
     } else if lr.raw && lr.ctype == 20 {
-        // ChangeCipherSpec records decode as in TLS
-        // (payload of 0x01 bytes was generated by the sender stub)
+        // ChangeCipherSpec records decode as in TLS: one message per 0x01 byte, decoding stops at the
+        // first other byte, and a record that does not start with 0x01 (or is empty) is rejected
         let n = lr.end - lr.start - 13;
-        if n >= 1 && sub.len() >= 13 + n && sub[13..13 + n].iter().all(|&b| b == 1) {
-            if !p.out.is_ok() || p.msgs.len() != n || p.msgs.iter().any(|m| m.kind != 1) {
-                ctx.violate(Prop::C10, "dtls/ccs", || format!("ChangeCipherSpec record with {} byte(s) 0x01 answered {} with {} messages", n, p.out.show(), p.msgs.len()));
+        if sub.len() >= 13 + n {
+            let k = sub[13..13 + n].iter().take_while(|&&b| b == 1).count();
+            ctx.count("oracle/ccs_alert_records_checked", 1);
+            if k == 0 {
+                if p.out.is_ok() {
+                    ctx.violate(Prop::C10, "dtls/ccs", || format!("ChangeCipherSpec record of {} byte(s) not starting with 0x01 yielded {} message(s)", n, p.msgs.len()));
+                }
+            } else if !p.out.is_ok() || p.msgs.len() != k || p.msgs.iter().any(|m| m.kind != 1) {
+                ctx.violate(Prop::C10, "dtls/ccs", || format!("ChangeCipherSpec record with {} leading 0x01 byte(s) of {} answered {} with {} messages", k, n, p.out.show(), p.msgs.len()));
             }
         }
     } else if lr.raw && lr.ctype == 21 {
-        let n = (lr.end - lr.start - 13) / 2;
-        if (lr.end - lr.start - 13) % 2 == 0 && n >= 1 && (!p.out.is_ok() || p.msgs.len() != n || p.msgs.iter().any(|m| m.kind != 2)) {
-            ctx.violate(Prop::C10, "dtls/alert", || format!("alert record with {} alert(s) answered {} with {} messages", n, p.out.show(), p.msgs.len()));
+        // alert records decode as in TLS: (level, description) pairs in wire order
+        let n = lr.end - lr.start - 13;
+        if sub.len() >= 13 + n {
+            let k = n / 2;
+            ctx.count("oracle/ccs_alert_records_checked", 1);
+            if k == 0 {
+                if p.out.is_ok() {
+                    ctx.violate(Prop::C10, "dtls/alert", || format!("alert record of {} byte(s) yielded {} message(s)", n, p.msgs.len()));
+                }
+            } else if !p.out.is_ok() || p.msgs.len() != k || p.msgs.iter().any(|m| m.kind != 2) {
+                ctx.violate(Prop::C10, "dtls/alert", || format!("alert record with {} alert(s) answered {} with {} messages", k, p.out.show(), p.msgs.len()));
+            } else if let Some(i) = (0..k).find(|&i| p.msgs[i].alert != (sub[13 + 2 * i], sub[13 + 2 * i + 1])) {
+                ctx.violate(Prop::C10, "dtls/alert", || format!("alert {} of the record: decoded (level {}, description {}), wire bytes ({}, {})", i, p.msgs[i].alert.0, p.msgs[i].alert.1, sub[13 + 2 * i], sub[13 + 2 * i + 1]));
+            }
         }
     }
     false
